@@ -854,6 +854,12 @@ def steps(draw, groups=("core", "maint", "branch"), names=BVVARS, exact_kw=None)
     if k == "add":
         step["cs"] = draw(st.lists(constraints(names), min_size=1, max_size=2))
         step["as_list"] = draw(st.booleans())
+        if draw(st.integers(0, 24)) == 0:
+            # a constant among the constraints of one add, possibly carrying an annotation (then it is not the object false() / true())
+            step["cs"] = [*step["cs"], ("bconst", draw(st.sampled_from((False, False, True))))]
+            step["as_list"] = True
+            if draw(st.booleans()):
+                step["tag"] = draw(st.integers(0, 3))
         return step
     if k == "add_contra":
         # members of small contradictory families, so that histories reach unsatisfiability through 2-3 constraints
@@ -1227,6 +1233,31 @@ def scenario_branch_isolation(draw, exact_kw=None):
             out.append({**q, "s": t})
     if exact_kw is not None:
         out = [({**s_, "exact": draw(st.sampled_from(exact_kw))} if s_["op"] in ("sat", "eval", "batch", "min", "max", "solution") else s_) for s_ in out]
+    return out
+
+
+@st.composite
+def scenario_constant_in_list(draw, exact_kw=None):
+    """A Boolean constant among the constraints of one add([...]) -- plain or carrying an annotation, i.e. not the object false() /
+    true() that the caching layers compare against --, after a pin or an exhaustive query has filled the caches, followed by the
+    queries again."""
+    names = tuple(draw(st.permutations(BVVARS))[:2])
+    x, y = _v(names[0]), _v(names[1])
+    out = [{"op": "add", "s": 0, "cs": [draw(st.sampled_from((("eq", x, _c(draw(st.sampled_from(CONSTS)))), ("ule", x, _c(draw(st.sampled_from(CONSTS)))), ("ult", x, y))))], "as_list": False}]
+    if draw(st.booleans()):
+        out.append({"op": "eval", "s": 0, "e": x, "n": draw(st.sampled_from((1, 300))), "extra": []})
+    if draw(st.integers(0, 2)) == 0:
+        out.append({"op": "branch", "s": 0})
+    cs = [("ult", x, y), ("bconst", draw(st.sampled_from((False, False, False, True))))]
+    step = {"op": "add", "s": draw(st.sampled_from((0, -1))), "cs": list(draw(st.permutations(cs))), "as_list": True}
+    if draw(st.integers(0, 3)):
+        step["tag"] = draw(st.integers(0, 3))
+    out.append(step)
+    for t in (0, -1):
+        out += [{"op": "eval", "s": t, "e": x, "n": draw(st.sampled_from((1, 2, 300))), "extra": []}, {"op": "sat", "s": t, "extra": []},
+                {"op": "min", "s": t, "e": y, "signed": False, "extra": []}, {"op": "solution", "s": t, "e": x, "v": draw(st.sampled_from(CONSTS)), "v_as_bvv": False, "extra": []}]
+    if exact_kw is not None:
+        out = [({**s_, "exact": draw(st.sampled_from(exact_kw))} if s_["op"] in ("sat", "eval", "min", "solution") else s_) for s_ in out]
     return out
 
 
